@@ -947,8 +947,8 @@ func runOp(r *lib.Run, line string) {
 
 // ---------------------------------------------------------------- generators
 
-var xmlNames = []string{"a", "test_b", "a<b", "a&b", `q"uote`, "it's", "x > y", "ünï", "日本語", "with space", "tab\there", "nl\nhere", "&amp;", "]]>", "<!--c-->", "a.b.c", "A", "a"}
-var xmlClasses = []string{"", "", "pkg.Class", "c<&>", "C\"", "pkg.Class"}
+var xmlNames = []string{"a", "test_b", "a<b", "a&b", `q"uote`, "it's", "x > y", "ünï", "日本語", "with space", "tab\there", "nl\nhere", "&amp;", "]]>", "<!--c-->", "a.b.c", "A", "a", "v2.roundtrip", "roundtrip", "b.c", "c"}
+var xmlClasses = []string{"", "", "pkg.Class", "c<&>", "C\"", "pkg.Class", "com.acme.Parser", "com.acme.Parser.v2", "a", "a.b"}
 var goNames = []string{"TestA", "TestB", "Test_under", "TestD/sub_1", "TestD/sub_2", "TestD", "TestE/x/y", "TestE/x", "TestE", "TestÜ", "TestA#01", "Test1", "TestZ/a=b"}
 
 func genX(r *lib.Run, wild bool) xcase {
@@ -1003,7 +1003,23 @@ func genDoc(r *lib.Run) doc {
 	return d
 }
 
+// collideKeys: (class name, name) pairs that are different splits of one dotted string, the same name under
+// different classes and the same class with different names: Add must keep all of them apart.
+var collideKeys = [][2]string{
+	{"com.acme.Parser", "v2.roundtrip"}, {"com.acme.Parser.v2", "roundtrip"}, {"", "a.b"}, {"a", "b"}, {"a.b", ""},
+	{"a", "b.c"}, {"a.b", "c"}, {"", "a.b.c"}, {"A", "x"}, {"B", "x"}, {"A", "y"}, {"", "x"},
+}
+
 func genA(r *lib.Run, names []string, maxExec int, wild bool) acase {
+	if r.Rng.Chance(25) {
+		k := lib.Pick(r.Rng, collideKeys)
+		a := acase{cls: k[0], name: k[1]}
+		for j := 1 + r.Rng.Intn(maxExec); j > 0 && maxExec > 0; j-- {
+			a.execs = append(a.execs, lib.Pick(r.Rng, []int{0, 0, 1, 2, 4}))
+		}
+		r.Count("collide-key")
+		return a
+	}
 	a := acase{cls: lib.Pick(r.Rng, []string{"", "", "K"}), name: lib.Pick(r.Rng, names)}
 	for j := r.Rng.Intn(maxExec + 1); j > 0; j-- {
 		if wild {
@@ -1092,6 +1108,21 @@ func main() {
 			r.Count("flake-exhaustive")
 		}
 	}
+	// (2b) every ordered pair of distinct keys of the colliding family, fail/pass outcomes, in one run and spread over two
+	for _, k1 := range collideKeys {
+		for _, k2 := range collideKeys {
+			if k1 == k2 {
+				continue
+			}
+			for _, o := range [][2]int{{1, 0}, {0, 1}, {1, 4}, {2, 0}} {
+				a := acase{k1[0], k1[1], []int{o[0]}}
+				b := acase{k2[0], k2[1], []int{o[1]}}
+				runOp(r, fmt.Sprintf("flake 2 %s", showA([]acase{a, b})))
+				runOp(r, fmt.Sprintf("flake 2 %s|%s", showA([]acase{a}), showA([]acase{b})))
+				r.Count("flake-colliding-keys")
+			}
+		}
+	}
 	r.Exhaust = true
 	// (3) random flake loops: repeated names inside a run, class names, several executions per case
 	for i := 0; i < r.N(1500, 20000); i++ {
@@ -1142,6 +1173,10 @@ func main() {
 					continue
 				}
 				run = append(run, acase{"", nm, []int{lib.Pick(r.Rng, []int{0, 0, 0, 1, 2, 4})}})
+			}
+			if r.Rng.Chance(40) {
+				k := lib.Pick(r.Rng, collideKeys[:8])
+				run = append(run, acase{k[0], k[1], []int{lib.Pick(r.Rng, []int{0, 0, 1, 2})}})
 			}
 			if len(run) == 0 {
 				run = append(run, acase{"", "A", []int{0}})
